@@ -105,7 +105,7 @@ def gen_decl(rng, name, place, hostile=False):
     rng.shuffle(attrs)
     ent_dims = dims is not None and rng.random() < 0.5
     ent_len = None
-    if ty == "character" and sel in ("", ) and rng.random() < 0.4 and not param:
+    if ty == "character" and sel in ("", "(len=10)", "(10)") and rng.random() < 0.4 and not param:
         ent_len = rng.choice(["*7", "*3"])
     text = ty + sel
     alist = list(attrs)
@@ -280,7 +280,7 @@ def gen_module(rng, hostile):
         elif form == 1:
             # statement-level attribute, entity-level dimensions for some
             attrs, ext = rng.choice([["save"], ["target"], ["dimension(2)"], ["save", "target"]]), None
-            dims = {nm: rng.choice(["(3)", "(2,2)"]) for nm in names if rng.random() < 0.5 and "dimension(2)" not in attrs}
+            dims = {nm: rng.choice(["(3)", "(2,2)"]) for nm in names if rng.random() < 0.5}  # an entity's own shape overrides DIMENSION(...) of the statement
         else:
             attrs, dims, ext = ["parameter"], {}, None
             ty, sel = "integer", ""
@@ -290,7 +290,7 @@ def gen_module(rng, hostile):
         if ext is not None:
             lines.append(ind + rng.choice(["external ", "external :: ", "EXTERNAL "]) + ext)
         for k, nm in enumerate(names):
-            ea = set(norm_attr(a) for a in attrs if not a.startswith("dimension")) | ({"DIMENSION(2)"} if "dimension(2)" in attrs else set())
+            ea = set(norm_attr(a) for a in attrs if not a.startswith("dimension")) | ({"DIMENSION(2)"} if "dimension(2)" in attrs and nm not in dims else set())
             if nm in dims:
                 ea.add("DIMENSION" + dims[nm])
             if nm == ext:
@@ -378,7 +378,7 @@ contains
 end module c11s
 """
 ARG1 = ["1", "q", "ff(1, 2)", "arr(1,2)", "ff(ff(1, 2), q)", "(q+1)*2", "arr(q, 1)"]
-ARG3 = ["'abc'", "\"a,b\"", "'x(y'", "\"p)q,r\"", "'it''s, ok'"]
+ARG3 = ["'abc'", "\"a,b\"", "'x(y'", "\"p)q,r\"", "'it''s, ok'", "\"it's broken\"", "'a 5\" pipe'", "\"don't (\""]
 
 
 def gen_calls(rng):
